@@ -8,6 +8,7 @@ pool, where each worker has its own pid and runs in a main thread with the *same
   pipefunc.cache.os / .threading     -> getpid() / get_ident() of the simulated process / thread
   pipefunc._pipefunc.datetime        -> datetime.datetime.now() = a virtual clock that advances one microsecond per
                                         kernel event (strictly increasing, deterministic)
+  builtins.hash                      -> str/bytes hashes salted per simulated process (hash randomisation)
   multiprocessing.parent_process     -> None in the simulated main program, an object in simulated pool workers and
                                         in cases that run "as a multiprocessing child"
 """
@@ -126,10 +127,29 @@ def sim_parent_process():
     return _real_parent_process()
 
 
+_real_hash = hash
+
+
+def sim_hash(obj):
+    """builtins.hash as code under simulation sees it: the hash of a str/bytes is salted per (simulated) process, like
+    CPython's hash randomisation salts it per interpreter.  Only explicit hash(...) calls go through here; dicts and
+    sets hash at C level and keep working on the real values."""
+    h = _real_hash(obj)
+    if type(obj) in (str, bytes):
+        sim = context.CURRENT
+        salt = getattr(sim, "hash_salt", 0) if sim is not None else 0
+        if salt:
+            h = (h ^ salt) or 1
+    return h
+
+
 def install():
     global _installed, _real_parent_process
     if _installed:
         return
+    import builtins
+
+    builtins.hash = sim_hash
     import multiprocessing
     import multiprocessing.context
     import multiprocessing.process
